@@ -159,6 +159,29 @@ def path_construction(a):
         a.candidates.append(c)
 
 
+def extend_usize_wiring(a):
+    """Path::extend_usize: the list index is rendered by the standard decimal `to_string` and appended as one segment"""
+    ex = a.exec(r"(?:rules::)?path_value::<impl at guard/src/rules/path_value\.rs:\d+:\d+: \d+:\d+>::extend_usize",
+                {"to_string": lambda ex, av: ("tuple", [("str", "decimal-of"), av[0]]), "extend_string": lambda ex, av: ex.opq(),
+                 "extend_str": lambda ex, av: ex.opq()}, log=("*",), unroll=1, max_paths=200)
+    a.fns.append("rules::path_value::Path::extend_usize")
+    me, part = ex.arg_env["_1"], ex.arg_env["_2"]
+    bad = []
+    for p in ex.paths:
+        ts = calls(p, "to_string")
+        es = calls(p, "extend_string") + calls(p, "extend_str")
+        ok = (p.outcome == "return" and len(ts) == 1 and same(ts[0][2][0], part) and len(es) == 1 and same(es[0][2][0], me)
+              and es[0][2][1] == ("tuple", [("str", "decimal-of"), part]) and p.ret == es[0][3])
+        bad.append("false" if ok else pc_term(p.pc))
+    c = a.discharge("Path::extend_usize/decimal-segment", ex, bad,
+                    "a list element's path is the list's path extended by exactly one segment: the element's index rendered by the "
+                    "standard (decimal) integer formatting - on every path through the function", witness=False)
+    if c:
+        c["replay"] = replay_paths(a)
+        c["reproduced"] = c["replay"].get("reproduced", False)
+        a.candidates.append(c)
+
+
 def replay_paths(a):
     """every failing check's `from.path` must resolve, in the document, to the reported value; the line/column in the
     message must be where that scalar starts in the file text"""
@@ -166,9 +189,10 @@ def replay_paths(a):
     exe = a.cli()
     if not exe:
         return {"reproduced": False, "note": "native build failed"}
-    doc = {"a": [10, 20, {"b": [30, 40]}], "m": {"k1": 50, "k2": {"k3": 60}}, "s": "x"}
+    doc = {"a": [10, 20, {"b": [30, 40]}], "m": {"k1": 50, "k2": {"k3": 60}}, "s": "x", "big": list(range(100, 118))}
     text = json.dumps(doc, indent=1) + "\n"
-    rules = ("rule t {\n  a[0] == 0\n  a[1] == 0\n  a[2].b[0] == 0\n  a[2].b[1] == 0\n  m.k1 == 0\n  m.k2.k3 == 0\n  s == 'y'\n}\n")
+    rules = ("rule t {\n  a[0] == 0\n  a[1] == 0\n  a[2].b[0] == 0\n  a[2].b[1] == 0\n  m.k1 == 0\n  m.k2.k3 == 0\n  s == 'y'\n  big[9] == 0\n"
+             "  big[10] == 0\n  big[11] == 0\n  big[15] == 0\n  big[16] == 0\n  big[17] == 0\n}\n")
     rc, rep, err = a.run_structured(exe, rules, [text])
     if not (rep and isinstance(rep, list) and rep):
         return {"reproduced": False, "note": "no report", "exit": rc, "stderr": (err or "")[-200:]}
@@ -203,9 +227,9 @@ def replay_paths(a):
         if ln >= len(lines) or not lines[ln][col:].startswith(val.strip('"') if not lines[ln][col:].startswith('"') else val):
             out.append({"path": pth, "line": ln, "col": col, "text_at_position": (lines[ln][col:col + 12] if ln < len(lines) else None),
                         "reported_value": val})
-    if seen < 7:
-        out.append({"problem": f"only {seen} of 7 failing checks reported with a path"})
+    if seen < 13:
+        out.append({"problem": f"only {seen} of 13 failing checks reported with a path"})
     return {"reproduced": bool(out), "mismatches": out[:5], "document": text, "rules_file": rules}
 
 
-SITES = {"C10": [path_construction]}
+SITES = {"C10": [path_construction, extend_usize_wiring]}
